@@ -216,7 +216,7 @@ def run (j : Json) : Except String Json := do
   let res := if warn then Flatland.C15.runWarnOverridden ovs v e pre else Flatland.C15.runOverridden ovs v e pre
   let spec := Spec.documented v e
   let known : Bool := match spec with
-    | some d => Flatland.C15.Spec.httpNoValue v e d
+    | some d => Flatland.C15.Spec.excluded v e d
     | none => false
   let agrees : Bool := match res, spec with
     | .ok o, some b => o.verdict == b || known
